@@ -167,14 +167,14 @@ func checkC05(ctx *Ctx, r *Report, tier string) {
 		return
 	}
 	// T6 degenerate guard
-	degenerateGuard(ctx, r, kfn, "T6", "Triangle3")
+	degenerateGuard(ctx, r, emissionFn(kfn, "Triangle3"), "T6", "Triangle3")
 	if cf := ctx.ssaFunc("render", "verifCtlKernelNoDegenerate"); cf != nil {
 		degenerateGuard(ctx, r, cf, "T6", "Triangle3")
 	}
 	degenerateTest(ctx, r, "T6", "Triangle3", 3)
 	degenerateToleranceZero(ctx, r, "T6", "render")
 	equalsAtZeroTolerance(ctx, r, "T6", "v3")
-	freshPrimitivePerIteration(ctx, r, "T6", kfn, "Triangle3")
+	freshPrimitivePerIteration(ctx, r, "T6", emissionFn(kfn, "Triangle3"), "Triangle3")
 	r.floor("T6", 4)
 	r.expectControl("T6", "verifCtlKernelNoDegenerate")
 	kf, err := analyseKernel(ctx, kfn, 3, "mcInterpolate")
@@ -618,6 +618,37 @@ func degenerateTest(ctx *Ctx, r *Report, rule, recv string, n int) {
 
 // degenerateGuard: every append to the result slice of primitives in fn is
 // control dependent on a Degenerate() call returning false.
+// emissionFn: the function that appends the primitives - the kernel itself, or the helper the
+// kernel hands its emission loop to.
+func emissionFn(kfn *ssa.Function, prim string) *ssa.Function {
+	has := func(f *ssa.Function) bool {
+		found := false
+		allInstrs(f, func(_ *ssa.BasicBlock, ins ssa.Instruction) {
+			if c, ok := ins.(*ssa.Call); ok {
+				if bi, ok := c.Call.Value.(*ssa.Builtin); ok && bi.Name() == "append" && namedTypeIs(c.Type(), "/sdf", prim) {
+					found = true
+				}
+			}
+		})
+		return found
+	}
+	if has(kfn) {
+		return kfn
+	}
+	var out *ssa.Function
+	allInstrs(kfn, func(_ *ssa.BasicBlock, ins ssa.Instruction) {
+		if c, ok := ins.(*ssa.Call); ok {
+			if g := c.Call.StaticCallee(); g != nil && inModule(g) && len(g.Blocks) > 0 && has(g) {
+				out = g
+			}
+		}
+	})
+	if out != nil {
+		return out
+	}
+	return kfn
+}
+
 func degenerateGuard(ctx *Ctx, r *Report, fn *ssa.Function, rule, prim string) {
 	n := 0
 	allInstrs(fn, func(b *ssa.BasicBlock, ins ssa.Instruction) {
